@@ -266,8 +266,10 @@ func verifyPartChecksums(part part.Entity, calculated storage.ChecksumValues) er
 }
 
 func verifyObjectChecksums(object storage.Object, parts []part.Entity, partChecksums []storage.ChecksumValues) error {
-	// If single part, object checksums should match part checksums
-	if len(parts) == 1 {
+	// If single part, object checksums should match part checksums. A one-part
+	// multipart upload or a first append still carries multipart-style
+	// checksums ("<md5 of part md5s>-1") and is verified the multipart way.
+	if len(parts) == 1 && !strings.Contains(object.ETag, "-") {
 		calculated := partChecksums[0]
 
 		if object.ETag != "" && calculated.ETag != nil {
